@@ -3,7 +3,85 @@ import os, shutil, signal, subprocess, time
 import vlib, e2e
 from c17 import PROJ_A
 
-THEOREMS = ["C18_crash_then_rerun_ok", "C18_inv_after_any_crash", "C18_partial_entry_is_a_miss", "C18_stamp_last", "C18_missing_link_then_crash_refuted"]
+THEOREMS = ["C18_crash_then_rerun_ok", "C18_inv_after_any_crash", "C18_partial_entry_is_a_miss", "C18_stamp_last", "C18_crash_search_clean",
+            "C18_crash_search_finds_stamp_first", "C18_missing_link_then_crash_refuted"]
+
+
+def model_crash_search():
+    """Model/Linker.v crash_search on the call order regenerated from /repo: (description, raw) of a bad kill point, or None."""
+    d = vlib.sub("c18-search")
+    path = os.path.join(d, "Search.v")
+    open(path, "w").write("From Verif Require Import Base.Bytes Model.Linker.\nFrom Verif Require Gen.LinkerProtocol.\n"
+                          "Definition found := Eval vm_compute in crash_search Gen.LinkerProtocol.patch_linker_calls.\nPrint found.\n")
+    r = subprocess.run(["timeout", "300", "coqc", "-Q", vlib.COQ, "Verif", path], cwd=d, stdout=subprocess.PIPE, stderr=subprocess.STDOUT)
+    out = r.stdout.decode(errors="replace")
+    import re
+    m = re.search(r"found\s*=\s*(.*?)\s*:\s*option", out, re.S)
+    if r.returncode != 0 or not m:
+        return ("crash_search could not be evaluated", out[-500:])
+    txt = " ".join(m.group(1).split())
+    if txt.startswith("None"):
+        return None
+    init = {"SStale, KStale": "a linker and stamp of another Go/garble version are in GARBLE_CACHE/tool", "SNone, KAbsent": "GARBLE_CACHE/tool is empty",
+            "SCurrent, KCurrent": "a current linker is cached"}
+    for k, v in init.items():
+        if k in txt:
+            n = re.search(r"(\d+)%nat", txt)
+            return ("%s; the build is killed after disk effect #%s of PatchLinker's calls in their current order; the next run finds a matching stamp next to a linker "
+                    "that is not this version's complete linker and uses it" % (v, n.group(1) if n else "?"), txt)
+    return ("bad kill point: " + txt, txt)
+
+
+def stale_linker_history(res, garble, proj, envx, ref_sha, ref):
+    """The history crash_search describes, on the implementation: another version's linker and stamp in the cache, the build
+    killed while PatchLinker rebuilds the linker, then the same build again.  Returns True if it ran."""
+    caches = e2e.Caches("c18-stale")
+    env = caches.env(envx)
+    tool = os.path.join(env["GARBLE_CACHE"], "tool")
+    os.makedirs(tool, exist_ok=True)
+    stock = vlib.run(["go", "tool", "-n", "link"], env=env).stdout.decode().strip()
+    if not stock or not os.path.exists(stock):
+        caches.remove()
+        return False
+    shutil.copy(stock, os.path.join(tool, "link"))
+    os.chmod(os.path.join(tool, "link"), 0o755)
+    open(os.path.join(tool, "link.version"), "w").write("go1.0.0 another-garble-version\n")
+    planted = e2e.sha256_file(os.path.join(tool, "link"))
+    out = os.path.join(proj.dir, "after-stale.bin")
+    p = subprocess.Popen([garble, "build", "-o", out, "."], env=env, cwd=proj.dir, stdout=subprocess.DEVNULL, stderr=subprocess.DEVNULL, start_new_session=True)
+    # wait until PatchLinker has started on the linker sources (overlay.json in the shared temp dir), then a little longer
+    t0, seen = time.time(), False
+    while time.time() - t0 < 600 and p.poll() is None:
+        for root, dirs, files in os.walk(env["TMPDIR"]):
+            if "overlay.json" in files and "linker-src" in root:
+                seen = True
+                break
+            if root.count(os.sep) - env["TMPDIR"].count(os.sep) > 2:
+                dirs[:] = []
+        if seen:
+            break
+        time.sleep(0.2)
+    time.sleep(1.5)
+    alive = p.poll() is None
+    try:
+        os.killpg(p.pid, signal.SIGKILL)
+    except ProcessLookupError:
+        pass
+    p.wait()
+    stamp_after = open(os.path.join(tool, "link.version")).read().strip() if os.path.exists(os.path.join(tool, "link.version")) else ""
+    rg = vlib.run([garble, "build", "-o", out, "."], env=env, cwd=proj.dir, timeout=1500)
+    ctx = {"history": ["plant the stock cmd/link and a foreign link.version in GARBLE_CACHE/tool", "garble build, kill -9 of the process group 1.5 s after linker-src/overlay.json appears",
+                       "garble build again on the same caches"], "killed_while_running": alive and seen, "stamp_after_kill": stamp_after, "files": PROJ_A}
+    if rg.returncode != 0:
+        res.violation("stale-linker-rerun-fails", "with another version's linker cached, a kill during the linker rebuild makes the next build fail: %s" % rg.stderr.decode()[-300:], ctx)
+    else:
+        link_now = e2e.sha256_file(os.path.join(tool, "link")) if os.path.exists(os.path.join(tool, "link")) else ""
+        if link_now == planted or e2e.sha256_file(out) != ref_sha or e2e.run_bin(out)[:2] != e2e.run_bin(ref)[:2]:
+            res.violation("stale-linker-reused", "with another version's linker cached, after a kill during the linker rebuild the next build %s (stamp after the kill: %r)"
+                          % ("keeps using the other version's linker" if link_now == planted else "produces another binary than an uninterrupted build", stamp_after), ctx)
+    caches.remove()
+    res.cov["stale_linker_history_killed_in_window"] = bool(alive and seen)
+    return True
 
 
 def run(res, tier, seed, replay):
@@ -31,6 +109,13 @@ def run(res, tier, seed, replay):
     if rr.returncode != 0:
         raise RuntimeError("reference build failed: " + rr.stderr.decode()[-400:])
     ref_sha = e2e.sha256_file(ref)
+    search = None
+    if not proofs_ok or tier != "quick":
+        # the model's own search for a bad kill point in the current call order, then that history on the implementation
+        search = model_crash_search() if ok else None
+        if search:
+            res.cov["model_crash_search"] = search[0]
+        stale_linker_history(res, garble, proj, envx, ref_sha, ref)
     npoints = 2 if tier == "quick" else 24
     fracs = [[0.3, 0.9], [0.1, 0.75], [0.5, 0.96], [0.2, 0.85]][seed % 4] if tier == "quick" else [(i + 0.5) / npoints for i in range(npoints)]
     caches = e2e.Caches("c18")   # one set of caches: interrupted states accumulate, like repeated interruptions in real life
@@ -70,5 +155,6 @@ def run(res, tier, seed, replay):
                        "process was still running when killed" % (total, len(fracs)))
     res.add_sample({"kill_fractions": fracs})
     if not proofs_ok and not res.violations:
-        res.violation("tie-broken", "proof obligations of Properties/C18.v no longer check (%s)" % getattr(res, "broken", "see output"),
-                      {"theorems": THEOREMS, "coq_output": getattr(res, "proof_output", "")[-2000:]}, found_input=False)
+        res.violation("tie-broken", "proof obligations of Properties/C18.v no longer check (%s)%s" % (getattr(res, "broken", "see output"),
+                                                                                                    "; model search: " + search[0] if search else ""),
+                      {"theorems": THEOREMS, "coq_output": getattr(res, "proof_output", "")[-2000:], "model_crash_search": search}, found_input=False)
